@@ -17,13 +17,17 @@ README_CONTRACT = [
 ]
 
 
+# the inline loop hands an event to the bus's processing entry point: process_event, or step(event) which wraps it in the lock
+PROCESSING_CALLS = ('process_event', 'step')
+
+
 @ob('C05.1', 'FLOW', 'the event handed to process_event by the in-handler inline loop is the awaited event itself, or is filtered by a test relating it to the awaited event '
     '(same event / descendant); otherwise unrelated events queued earlier run first, inside the awaiting handler')
 def c05_1(c: Ctx) -> None:
     u = await_coro(c)
     br = inline_branch(c, u)
     self_ = c.unit(MOD, 'BaseEvent.__await__').params()[0]
-    calls = [n for n in own_nodes(u.node) if isinstance(n, ast.Call) and call_name(n) == 'process_event' and q.lexically_in(n, br, 'body')]
+    calls = [n for n in own_nodes(u.node) if isinstance(n, ast.Call) and call_name(n) in PROCESSING_CALLS and q.lexically_in(n, br, 'body')]
     c.floor(len(calls), 1, 'process_event calls on the inline branch')
     c.note('documented contract: ' + ' / '.join(README_CONTRACT))
     for call in calls:
@@ -71,7 +75,7 @@ def c05_2(c: Ctx) -> None:
     br = inline_branch(c, u)
     aws = inline_awaits(c, u, br)
     sleeps = [a for a in aws if is_sleep0(a)]
-    procs = [a for a in aws if isinstance(a.value, ast.Call) and call_name(a.value) == 'process_event']
+    procs = [a for a in aws if isinstance(a.value, ast.Call) and call_name(a.value) in PROCESSING_CALLS]
     c.floor(len(procs), 1, 'inline process_event awaits')
     if not sleeps:
         c.ok(where(u, br), 'inline branch never yields to the event loop')
@@ -125,6 +129,32 @@ def c05_3(c: Ctx) -> None:
 
     c06_1(c)
     c06_3(c)
+
+
+def check_no_inline_processing_after_completion(c: Ctx) -> None:
+    u = await_coro(c)
+    g = c.cfg(u)
+    br = inline_branch(c, u)
+    self_ = c.unit(MOD, 'BaseEvent.__await__').params()[0]
+    procs = [a for a in inline_awaits(c, u, br) if isinstance(a.value, ast.Call) and call_name(a.value) in PROCESSING_CALLS]
+    c.floor(len(procs), 1, 'inline process_event awaits')
+    atom = f'{self_}.event_completed_signal.is_set()'
+    facts = Facts(lambda a: a == atom, cg=c.cg, unit=u)
+    for a in procs:
+        st = q.stmt_of(a)
+        # paths may pass through the call itself (the loop comes back to it), so the call is not a barrier of the search
+        bad = [p for n in g.nodes_of(st) if (p := q.reach_search(g, [(g.entry, {})], lambda m, d, n=n: m is n and d.get(atom) not in ('F', 'Fy'), lambda m, d: False, facts)) is not None]
+        if not bad:
+            c.ok(where(u, a), 'an event is processed inline only while the awaited event is known incomplete (signal tested since the last suspension)')
+        else:
+            c.fail(u, f'inline process_event reachable without a fresh `not {atom}`', 'queued events keep being processed inside the awaiting handler after the awaited event has completed (they run before the handler resumes, under its timeout)',
+                   node=a, witness=c.path(g.entry, bad[0]))
+
+
+@ob('C05.4', 'DOM', 'the inline loop stops at the awaited event: every inline process_event is reached only with `not self.event_completed_signal.is_set()` established since the last '
+    'suspension point, so nothing queued behind the awaited event runs inside the awaiting handler once the event is complete')
+def c05_4(c: Ctx) -> None:
+    check_no_inline_processing_after_completion(c)
 
 
 OBLIGATIONS = ob.obs
